@@ -332,4 +332,345 @@ theorem runPreCreateTransform_eq (internal : Bool) (fresh : Nat → Nat) (db : L
   | none => rw [h] at this; simp at this
   | some _ => rfl
 
+/-! ### lists with positions -/
+
+theorem updateFrom_getElem? (f : Nat → Ent → Ent) :
+    ∀ (l : List Ent) (k i : Nat), (updateFrom f k l)[i]? = (l[i]?).map (f (k + i)) := by
+  intro l
+  induction l with
+  | nil => intro k i; simp [updateFrom]
+  | cons e es ih =>
+    intro k i
+    cases i with
+    | zero => simp [updateFrom]
+    | succ j =>
+      simp only [updateFrom, List.getElem?_cons_succ]
+      rw [ih (k + 1) j]
+      have : k + 1 + j = k + (j + 1) := by omega
+      rw [this]
+
+theorem updateFrom_length (f : Nat → Ent → Ent) :
+    ∀ (l : List Ent) (k : Nat), (updateFrom f k l).length = l.length := by
+  intro l
+  induction l with
+  | nil => intro k; simp [updateFrom]
+  | cons e es ih => intro k; simp [updateFrom, ih]
+
+theorem mem_selectFrom (sel : Nat → Bool) :
+    ∀ (l : List Ent) (k i : Nat) (e : Ent), l[i]? = some e → sel (k + i) = true →
+      e ∈ selectFrom sel k l := by
+  intro l
+  induction l with
+  | nil => intro k i e h; simp at h
+  | cons e0 es ih =>
+    intro k i e h hs
+    cases i with
+    | zero =>
+      simp only [List.getElem?_cons_zero, Option.some.injEq] at h
+      subst h
+      simp only [Nat.add_zero] at hs
+      simp [selectFrom, hs]
+    | succ j =>
+      simp only [List.getElem?_cons_succ] at h
+      have hs' : sel (k + 1 + j) = true := by
+        have : k + 1 + j = k + (j + 1) := by omega
+        rw [this]; exact hs
+      have := ih (k + 1) j e h hs'
+      unfold selectFrom
+      split
+      · exact List.mem_cons_of_mem _ this
+      · exact this
+
+theorem newFrom_getElem? (h : Havoc) :
+    ∀ (es : List (Nat × List Nat)) (k i : Nat) (e : Ent), (newFrom h k es)[i]? = some e →
+      ∃ p ∈ es, e.uuid = p.1 := by
+  intro es
+  induction es with
+  | nil => intro k i e hh; simp [newFrom] at hh
+  | cons p rest ih =>
+    intro k i e hh
+    obtain ⟨u, cls⟩ := p
+    cases i with
+    | zero =>
+      simp only [newFrom, List.getElem?_cons_zero, Option.some.injEq] at hh
+      subst hh
+      exact ⟨(u, cls), List.mem_cons_self, rfl⟩
+    | succ j =>
+      simp only [newFrom, List.getElem?_cons_succ] at hh
+      obtain ⟨q, hq, hqe⟩ := ih (k + 1) j e hh
+      exact ⟨q, List.mem_cons_of_mem _ hq, hqe⟩
+
+theorem getElem?_append_some {l r : List Ent} {i : Nat} {e : Ent} (h : l[i]? = some e) :
+    (l ++ r)[i]? = some e := by
+  have hi : i < l.length := by
+    cases Nat.lt_or_ge i l.length with
+    | inl h' => exact h'
+    | inr h' => rw [List.getElem?_eq_none h'] at h; simp at h
+  rw [List.getElem?_append_left hi]; exact h
+
+/-! ### one request -/
+
+theorem modified_uuid {h : Havoc} {i : Nat} {e : Ent} {ml : List Mod}
+    (hno : ∀ m ∈ ml, touches A.Uuid m = false) : (modified h i e ml).uuid = e.uuid := by
+  unfold modified
+  simp only
+  rw [applyAva_noop ml _ hno]
+  simp [validateUuid]
+
+/-- The uuid stored at a position never changes, whoever asks, whatever the profiles. -/
+theorem step_uuid_preserved (id : Ident) (h : Havoc) (st : State) (r : Req) (i : Nat) (e : Ent)
+    (he : st[i]? = some e) : ∃ e', (step id h st r)[i]? = some e' ∧ e'.uuid = e.uuid := by
+  cases r with
+  | create acps fresh reqs =>
+    simp only [step]
+    split
+    · split
+      · exact ⟨e, getElem?_append_some he, rfl⟩
+      · exact ⟨e, he, rfl⟩
+    · exact ⟨e, he, rfl⟩
+  | modify acps ag sel ml =>
+    simp only [step]
+    split
+    · rename_i hst
+      split
+      · rw [updateFrom_getElem?, he]
+        simp only [Option.map_some, Nat.zero_add]
+        refine ⟨_, rfl, ?_⟩
+        split
+        · exact modified_uuid (modifyStage_proceed_no_touch hst)
+        · rfl
+      · exact ⟨e, he, rfl⟩
+    · exact ⟨e, he, rfl⟩
+  | batch acps ag sel modset =>
+    simp only [step]
+    split
+    · rename_i hst
+      split
+      · rw [updateFrom_getElem?, he]
+        simp only [Option.map_some, Nat.zero_add]
+        refine ⟨_, rfl, ?_⟩
+        split
+        · rename_i hb
+          have hmem : e ∈ selectFrom (batchSel sel modset st) 0 st :=
+            mem_selectFrom _ st 0 i e he (by simpa using hb)
+          have hp : (e, modset.lookup e.uuid) ∈
+              (selectFrom (batchSel sel modset st) 0 st).map (fun e => (e, modset.lookup e.uuid)) :=
+            List.mem_map.mpr ⟨e, hmem, rfl⟩
+          exact modified_uuid (batchStage_proceed_no_touch hst _ hp)
+        · rfl
+      · exact ⟨e, he, rfl⟩
+    · exact ⟨e, he, rfl⟩
+  | delete acps sel =>
+    simp only [step]
+    split
+    · split
+      · rw [updateFrom_getElem?, he]
+        simp only [Option.map_some, Nat.zero_add]
+        refine ⟨_, rfl, ?_⟩
+        split <;> rfl
+      · exact ⟨e, he, rfl⟩
+    · exact ⟨e, he, rfl⟩
+
+theorem step_length_le (id : Ident) (h : Havoc) (st : State) (r : Req) :
+    st.length ≤ (step id h st r).length := by
+  cases r <;> simp only [step] <;> repeat' split
+  all_goals first | exact Nat.le_refl _ | simp [updateFrom_length]
+
+/-- the fresh uuids of a create request are version-4 style: at or above the dynamic minimum -/
+def Req.freshOk : Req → Prop
+  | .create _ fresh _ => ∀ k, dynamicRangeMinimum ≤ fresh k
+  | _ => True
+
+/-- What a position holds after a request of a non-internal identity: what it held before (same
+uuid), or a new entry whose uuid is at or above `DYNAMIC_RANGE_MINIMUM_UUID`. -/
+theorem step_origin (id : Ident) (hid : id.isInternal = false) (h : Havoc) (st : State) (r : Req)
+    (hf : r.freshOk) (i : Nat) (e' : Ent) (he' : (step id h st r)[i]? = some e') :
+    (∃ e, st[i]? = some e ∧ e.uuid = e'.uuid) ∨ (st.length ≤ i ∧ dynamicRangeMinimum ≤ e'.uuid) := by
+  cases Nat.lt_or_ge i st.length with
+  | inl hi =>
+    left
+    have hsome : st[i]? = some st[i] := List.getElem?_eq_getElem hi
+    obtain ⟨e2, h2, h2u⟩ := step_uuid_preserved id h st r i st[i] hsome
+    rw [h2] at he'
+    have : e2 = e' := Option.some.inj he'
+    subst this
+    exact ⟨st[i], hsome, h2u.symm⟩
+  | inr hi =>
+    right
+    refine ⟨hi, ?_⟩
+    cases r with
+    | create acps fresh reqs =>
+      simp only [step] at he'
+      split at he'
+      · rename_i es hst
+        split at he'
+        · rw [List.getElem?_append_right hi] at he'
+          obtain ⟨p, hp, hpe⟩ := newFrom_getElem? h es _ _ e' he'
+          rw [hpe]
+          unfold createStage at hst
+          split at hst
+          · simp at hst
+          · split at hst
+            · rename_i es' hrun
+              simp only [CreateOut.proceed.injEq] at hst
+              subst hst
+              rw [runPreCreateTransform_eq, hid] at hrun
+              exact (base_ok_user hrun).1 p hp
+            · simp at hst
+          · simp at hst
+        · rw [List.getElem?_eq_none hi] at he'; simp at he'
+      · rw [List.getElem?_eq_none hi] at he'; simp at he'
+    | modify acps ag sel ml =>
+      have hl : (step id h st (.modify acps ag sel ml)).length = st.length := by
+        simp only [step]; repeat' split
+        all_goals first | rfl | simp [updateFrom_length]
+      rw [List.getElem?_eq_none (by rw [hl]; exact hi)] at he'; simp at he'
+    | batch acps ag sel modset =>
+      have hl : (step id h st (.batch acps ag sel modset)).length = st.length := by
+        simp only [step]; repeat' split
+        all_goals first | rfl | simp [updateFrom_length]
+      rw [List.getElem?_eq_none (by rw [hl]; exact hi)] at he'; simp at he'
+    | delete acps sel =>
+      have hl : (step id h st (.delete acps sel)).length = st.length := by
+        simp only [step]; repeat' split
+        all_goals first | rfl | simp [updateFrom_length]
+      rw [List.getElem?_eq_none (by rw [hl]; exact hi)] at he'; simp at he'
+
+/-! ### delete -/
+
+theorem deleteAnonCmp_iff (u : Nat) :
+    deleteAnonCmp u Kanidm.Gen.Access.uuidAnonymous = true ↔ u ≤ Kanidm.Gen.Access.uuidAnonymous := by
+  simp [deleteAnonCmp]
+
+/-- The protected gate of delete denies every entry in the system range for every identity but
+the internal system role, and that denial is final whatever the profiles grant. -/
+theorem applyDeleteAccess_builtin (id : Ident) (hns : id.origin ≠ .internal .system)
+    (rel : List (Resolved AcpDelete)) (e : Ent) (hu : e.uuid ≤ Kanidm.Gen.Access.uuidAnonymous) :
+    applyDeleteAccess id rel e = false := by
+  have hp : deleteProtectedFilterEntry id e = .deny := by
+    unfold deleteProtectedFilterEntry
+    have hc := (deleteAnonCmp_iff e.uuid).mpr hu
+    split
+    · rename_i ho; exact absurd ho hns
+    · rfl
+    · rfl
+    · rfl
+    · simp [hc]
+    · simp [hc]
+  unfold applyDeleteAccess
+  simp [hp]
+
+theorem deleteOp_builtin (id : Ident) (hns : id.origin ≠ .internal .system)
+    (acps : List AcpDelete) (cands : List Ent)
+    (h : ∃ e ∈ cands, e.uuid ≤ Kanidm.Gen.Access.uuidAnonymous) :
+    deleteOp id acps cands = .accessDenied := by
+  obtain ⟨e, he, hu⟩ := h
+  unfold deleteOp
+  have : deleteAllowOperation id acps cands = false := by
+    unfold deleteAllowOperation
+    simp only
+    apply Bool.eq_false_iff.mpr
+    intro hall
+    have := List.all_eq_true.mp hall e he
+    rw [applyDeleteAccess_builtin id hns _ e hu] at this
+    simp at this
+  simp [this]
+
+theorem anon_succ_eq_dynMin : Kanidm.Gen.Access.uuidAnonymous + 1 = dynamicRangeMinimum := by decide
+
+theorem maskChanged_false {h : Havoc} {i : Nat} {e : Ent} {ml : List Mod}
+    (hm : maskChanged e ml = false) :
+    maskedTs (modified h i e ml).classes = maskedTs e.classes := by
+  unfold maskChanged at hm
+  simp only [modified]
+  have : maskedTs e.classes = maskedTs (applyClassMods e.classes ml) := by simpa using hm
+  exact this.symm
+
+/-- lifecycle of a system-range entry survives any request of a non-system identity -/
+theorem step_builtin (id : Ident) (hns : id.origin ≠ .internal .system) (h : Havoc) (st : State)
+    (r : Req) (i : Nat) (e : Ent) (he : st[i]? = some e) (hu : e.uuid < dynamicRangeMinimum) :
+    ∃ e', (step id h st r)[i]? = some e' ∧ e'.uuid = e.uuid ∧
+      maskedTs e'.classes = maskedTs e.classes := by
+  have hanon : e.uuid ≤ Kanidm.Gen.Access.uuidAnonymous := by
+    have := anon_succ_eq_dynMin; omega
+  cases r with
+  | create acps fresh reqs =>
+    simp only [step]
+    split
+    · split
+      · exact ⟨e, getElem?_append_some he, rfl, rfl⟩
+      · exact ⟨e, he, rfl, rfl⟩
+    · exact ⟨e, he, rfl, rfl⟩
+  | modify acps ag sel ml =>
+    simp only [step]
+    split
+    · rename_i hst
+      split
+      · rw [updateFrom_getElem?, he]
+        simp only [Option.map_some, Nat.zero_add]
+        refine ⟨_, rfl, ?_⟩
+        split
+        · rename_i hs
+          refine ⟨modified_uuid (modifyStage_proceed_no_touch hst), ?_⟩
+          have hmem : e ∈ selectFrom sel 0 st := mem_selectFrom _ st 0 i e he (by simpa using hs)
+          -- the lifecycle guard of modify_pre_apply
+          have hmask : maskChanged e ml = false := by
+            unfold modifyStage at hst
+            repeat' split at hst
+            all_goals first | exact absurd hst (by decide) | skip
+            rename_i hmk _
+            cases hm : maskChanged e ml with
+            | false => rfl
+            | true => exact absurd (List.any_eq_true.mpr ⟨e, hmem, hm⟩) hmk
+          exact (maskChanged_false hmask)
+        · exact ⟨rfl, rfl⟩
+      · exact ⟨e, he, rfl, rfl⟩
+    · exact ⟨e, he, rfl, rfl⟩
+  | batch acps ag sel modset =>
+    simp only [step]
+    split
+    · rename_i hst
+      split
+      · rw [updateFrom_getElem?, he]
+        simp only [Option.map_some, Nat.zero_add]
+        refine ⟨_, rfl, ?_⟩
+        split
+        · rename_i hb
+          have hmem : e ∈ selectFrom (batchSel sel modset st) 0 st :=
+            mem_selectFrom _ st 0 i e he (by simpa using hb)
+          have hp : (e, modset.lookup e.uuid) ∈
+              (selectFrom (batchSel sel modset st) 0 st).map (fun e => (e, modset.lookup e.uuid)) :=
+            List.mem_map.mpr ⟨e, hmem, rfl⟩
+          refine ⟨modified_uuid (batchStage_proceed_no_touch hst _ hp), ?_⟩
+          have hmask : maskChanged e ((modset.lookup e.uuid).getD []) = false := by
+            unfold batchStage at hst
+            repeat' split at hst
+            all_goals first | exact absurd hst (by decide) | skip
+            rename_i hmk _
+            cases hm : maskChanged e ((modset.lookup e.uuid).getD []) with
+            | false => rfl
+            | true => exact absurd (List.any_eq_true.mpr ⟨_, hp, hm⟩) hmk
+          exact (maskChanged_false hmask)
+        · exact ⟨rfl, rfl⟩
+      · exact ⟨e, he, rfl, rfl⟩
+    · exact ⟨e, he, rfl, rfl⟩
+  | delete acps sel =>
+    simp only [step]
+    split
+    · rename_i hst
+      split
+      · rw [updateFrom_getElem?, he]
+        simp only [Option.map_some, Nat.zero_add]
+        refine ⟨_, rfl, ?_⟩
+        split
+        · rename_i hs
+          have hmem : e ∈ selectFrom sel 0 st := mem_selectFrom _ st 0 i e he (by simpa using hs)
+          have := deleteOp_builtin id hns acps _ ⟨e, hmem, hanon⟩
+          unfold deleteStage at hst
+          rw [this] at hst
+          exact absurd hst (by decide)
+        · exact ⟨rfl, rfl⟩
+      · exact ⟨e, he, rfl, rfl⟩
+    · exact ⟨e, he, rfl, rfl⟩
+
 end Kanidm.BaseProtect
